@@ -283,9 +283,10 @@ class Renderer(object):  # pylint: disable=too-many-instance-attributes
         return (phys - cur) / pr.u
 
     def e_word(self, new_e_mm):
+        nd = 15 if self.p.get("stress") else 5      # stress programs carry 1e-10-sized E components: keep cycles matched
         if not self.pr.eabs:
-            return " E" + fmt((new_e_mm - self.pr.e) / self.pr.u, 5)
-        return " E" + fmt(new_e_mm / self.pr.u, 5)
+            return " E" + fmt((new_e_mm - self.pr.e) / self.pr.u, nd)
+        return " E" + fmt(new_e_mm / self.pr.u, nd)
 
     def e_ok(self):
         return self.pr.eabs or bool(self.p.get("e_rel_ok"))
@@ -509,7 +510,8 @@ class Renderer(object):  # pylint: disable=too-many-instance-attributes
         elif what == "inch_feed":
             self.g("G1 F%s" % fmt(n * 10.0 ** -(3 + m % 5), 9))
         elif what == "tiny_merge":
-            self.g(["M204 S%s", "M205 X%s", "M73 P%s"][m % 3] % fmt(n * 1e-7, 9))
+            # (n == 9: exactly zero - a legal value that careless formatting code drops)
+            self.g(["M204 S%s", "M205 X%s", "M73 P%s"][m % 3] % (fmt(n * 1e-7, 9) if n != 9 else "0"))
         elif what == "huge_merge":
             self.g(["M204 T%s", "M205 J%s", "M73 R%s"][m % 3] % ("%d" % (n * 10 ** (16 + m))))
 
@@ -540,10 +542,11 @@ class Renderer(object):  # pylint: disable=too-many-instance-attributes
     def cycle(self):
         pr = self.pr
         if self.fw:
+            sp = getattr(self, "fw_spelling", 0)
             if not self.retracted:
-                self.g("G10")
+                self.g(["G10", "G10 S1", "G10S1", "G10 S0"][sp])
             else:
-                self.g("G11")
+                self.g(["G11", "G11 S1", "G11S1", "G11"][sp])
             self.retracted = not self.retracted
             return
         if not self.e_ok():
@@ -648,6 +651,7 @@ def cases(draw, p):
     fw = draw(st.booleans())
     abstract = draw(ops(p))
     rnd = Renderer(cfg, regions, p, delta, fw, exact)
+    rnd.fw_spelling = draw(st.sampled_from([0, 0, 1, 2, 3]))
     rnd.start(inch=bool(p["inch"] and not exact and draw(st.integers(0, 4)) == 0))
     for o in abstract:
         rnd.op(o)
